@@ -16,7 +16,7 @@ func init() { Drivers["xibc"] = driveXIBC }
 
 func signerIdx(s string) int {
 	switch s {
-	case "relayer":
+	case "relayer", "forger": // the forger is the registered relayer submitting a forged header
 		return AcctRelayer
 	case "outsider":
 		return AcctOutside
@@ -127,13 +127,20 @@ func driveXIBC(t *testing.T, in, out string, seed int64) {
 				w.Commit(on)
 				line["res"], line["sig"] = "ok", "Commit"
 			case "UpdateClient":
+				if str(st["signer"]) == "forger" {
+					w.ForgeNext = true
+				}
 				r := w.UpdateClient(on, str(st["counter"]), int(num(st["height"])), signerIdx(str(st["signer"])))
+				w.ForgeNext = false
 				line["res"], line["msg"] = resOf(r), clip(r.Log)
 				line["sig"] = "UpdateClient/" + str(st["signer"])
 				line["registered"] = w.Chains[on].App.XIBCKeeper.ClientKeeper.AuthRelayer(w.Chains[on].Ctx(), w.ID[str(st["counter"])], w.Chains[on].Accts[signerIdx(str(st["signer"]))].Acc.String())
 			case "Rotate":
 				res, msg := w.Rotate(on, str(st["counter"]))
 				line["res"], line["msg"], line["sig"] = res, clip(msg), "Rotate"
+			case "NewClient":
+				res, msg := w.NewClient(on, str(st["counter"]), str(st["name"]))
+				line["res"], line["msg"], line["sig"] = res, clip(msg), "NewClient/"+str(st["name"])
 			case "Retoggle":
 				res, msg := w.Retoggle(on, str(st["counter"]))
 				line["res"], line["msg"], line["sig"] = res, clip(msg), "Retoggle"
